@@ -102,7 +102,13 @@ static std::string cmd_prog(const std::vector<std::string> &args)
   ctx->quiet_output = 1;
   if (opts.find('o') != std::string::npos) { ctx->optimize = 1; }
   if (have_dir) { include_add_path(ctx, dir); }
-  tokens_open_buffer(ctx, source.c_str());
+  // The source is read through a FILE (as naken_asm does) so that .include can switch files.
+  FILE *src_fp = tmpfile();
+  if (src_fp == NULL) { delete ctx; return "bad-op"; }
+  fwrite(source.data(), 1, source.size(), src_fp);
+  fflush(src_fp);
+  fseek(src_fp, 0, SEEK_SET);
+  ctx->tokens.in = src_fp;
   ctx->tokens.filename = "prog";
   ctx->init();
   int error_flag = ctx->assemble();
@@ -132,6 +138,7 @@ static std::string cmd_prog(const std::vector<std::string> &args)
   out += " dbg=" + dump_image(&ctx->memory, true);
   out += " syms=" + dump_symbols(ctx);
   if (!p1.empty()) { out += " p1=" + p1; }
+  if (ctx->tokens.in != NULL) { fclose(ctx->tokens.in); ctx->tokens.in = NULL; }
   delete ctx;
   for (auto &f : files) { unlink(f.c_str()); }
   if (have_dir) { rmdir(dir); }
